@@ -14,6 +14,19 @@ pub fn has_name(node: &Node, name: &str) -> bool {
     tag.name() == name && tag.namespace() == node.document().root_element().tag_name().namespace()
 }
 
+/// Returns the namespace prefix of an element exactly as it is written in the document.
+///
+/// Several prefixes can be bound to the same namespace and a prefix can be declared
+/// on any ancestor, so a lookup by namespace does not always find the prefix that was used.
+pub fn prefix<'input>(node: &Node<'_, 'input>) -> Option<&'input str> {
+    let text = node.document().input_text();
+    let qualified_name = text
+        .get(node.range().start + 1..)?
+        .split(|c: char| c.is_whitespace() || c == '>' || c == '/')
+        .next()?;
+    qualified_name.split_once(':').map(|(prefix, _)| prefix)
+}
+
 /// Returns the text content of an element or `None` if it has none.
 ///
 /// Only the direct text children are used, so foreign child elements from E57
